@@ -160,8 +160,14 @@ SE2TangentBase<_Derived>::exp(OptJacobianRef J_m_t) const
     }
     else
     {
-      (*J_m_t)(0,2) = (-y() + theta*x() + y()*cos_theta - x()*sin_theta)/theta_sq;
-      (*J_m_t)(1,2) = ( x() + theta*y() - x()*cos_theta - y()*sin_theta)/theta_sq;
+      // C = (1-cos)/theta^2 and D = (theta-sin)/theta^2, written so that
+      // no O(1) terms cancel: the expanded form loses all its digits
+      // just above the small-angle threshold.
+      const Scalar sin_half_theta = sin(theta / Scalar(2));
+      const Scalar C = Scalar(2) * sin_half_theta * sin_half_theta / theta_sq;
+      const Scalar D = (theta - sin_theta) / theta_sq;
+      (*J_m_t)(0,2) = D * x() - C * y();
+      (*J_m_t)(1,2) = C * x() + D * y();
     }
   }
 
@@ -228,15 +234,7 @@ SE2TangentBase<_Derived>::rjacinv() const
   using std::sin;
 
   const Scalar theta = angle();
-  const Scalar cos_theta = cos(theta);
-  const Scalar sin_theta = sin(theta);
   const Scalar theta_sq = theta * theta;
-
-  Scalar A,  // theta_sin_theta
-         B;  // theta_cos_theta
-
-  A = theta*sin_theta;
-  B = theta*cos_theta;
 
   Jacobian Jrinv;
 
@@ -245,12 +243,18 @@ SE2TangentBase<_Derived>::rjacinv() const
 
   if (theta_sq > Constants<Scalar>::eps)
   {
-    Jrinv(0,0) = -A/(Scalar(2)*cos_theta-Scalar(2));
-    Jrinv(1,1) =  Jrinv(0,0);
+    // K = theta/2 * cot(theta/2) = theta*sin/(2-2*cos) and G = (1-K)/theta,
+    // written so that no O(1) terms cancel: the expanded form loses all
+    // its digits just above the small-angle threshold.
+    const Scalar half_theta = theta / Scalar(2);
+    const Scalar K = half_theta * cos(half_theta) / sin(half_theta);
+    const Scalar G = (Scalar(1) - K) / theta;
 
-    Scalar den = Scalar(2)*theta*(cos_theta-Scalar(1));
-    Jrinv(0,2) = (A*x() + B*y() - theta*y() + Scalar(2)*x()*cos_theta - Scalar(2)*x()) / den;
-    Jrinv(1,2) = (-B*x() + A*y() + theta*x() + Scalar(2)*y()*cos_theta - Scalar(2)*y()) / den;
+    Jrinv(0,0) = K;
+    Jrinv(1,1) = K;
+
+    Jrinv(0,2) =  y()/Scalar(2) + G*x();
+    Jrinv(1,2) = -x()/Scalar(2) + G*y();
   }
   else
   {
@@ -309,8 +313,12 @@ SE2TangentBase<_Derived>::ljac() const
   }
   else
   {
-    Jl(0,2) = ( y() + theta*x() - y()*cos_theta - x()*sin_theta)/theta_sq;
-    Jl(1,2) = (-x() + theta*y() + x()*cos_theta - y()*sin_theta)/theta_sq;
+    // see exp() for C and D
+    const Scalar sin_half_theta = sin(theta / Scalar(2));
+    const Scalar C = Scalar(2) * sin_half_theta * sin_half_theta / theta_sq;
+    const Scalar D = (theta - sin_theta) / theta_sq;
+    Jl(0,2) =  D * x() + C * y();
+    Jl(1,2) = -C * x() + D * y();
   }
 
   return Jl;
@@ -325,15 +333,7 @@ SE2TangentBase<_Derived>::ljacinv() const
   using std::sin;
 
   const Scalar theta = angle();
-  const Scalar cos_theta = cos(theta);
-  const Scalar sin_theta = sin(theta);
   const Scalar theta_sq = theta * theta;
-
-  Scalar A,  // theta_sin_theta
-         B;  // theta_cos_theta
-
-  A = theta*sin_theta;
-  B = theta*cos_theta;
 
   Jacobian Jlinv;
 
@@ -342,12 +342,16 @@ SE2TangentBase<_Derived>::ljacinv() const
 
   if (theta_sq > Constants<Scalar>::eps)
   {
-    Jlinv(0,0) = -A/(Scalar(2)*cos_theta-Scalar(2));
-    Jlinv(1,1) =  Jlinv(0,0);
+    // see rjacinv() for K and G
+    const Scalar half_theta = theta / Scalar(2);
+    const Scalar K = half_theta * cos(half_theta) / sin(half_theta);
+    const Scalar G = (Scalar(1) - K) / theta;
 
-    Scalar den = Scalar(2)*theta*(cos_theta-Scalar(1));
-    Jlinv(0,2) = (A*x() - B*y() + theta*y() + Scalar(2)*x()*cos_theta - Scalar(2)*x()) / den;
-    Jlinv(1,2) = (B*x() + A*y() - theta*x() + Scalar(2)*y()*cos_theta - Scalar(2)*y()) / den;
+    Jlinv(0,0) = K;
+    Jlinv(1,1) = K;
+
+    Jlinv(0,2) = -y()/Scalar(2) + G*x();
+    Jlinv(1,2) =  x()/Scalar(2) + G*y();
   }
   else
   {
